@@ -240,26 +240,24 @@ RAND_TYPES = {"h264": [1, 1, 1, 2, 3, 4, 5, 5, 6, 7, 7, 8, 8, 9, 10, 11, 12, 13,
                        35, 36, 37, 38, 39, 39, 40]}
 
 
-def _len_for(rng, codec, ty, big, mtu):
-    if big:
-        return rng.randrange(int(2.2 * mtu), int(3.2 * mtu))
-    if codec == "h265" and ty == 33:
-        return rng.randrange(16, 19)        # long enough to carry a parsable sps_seq_parameter_set_id
-    return rng.randrange(5, 19)
-
-
 def run_c35(ctx):
     quick = ctx.quick
-    jobs = [lambda: vlib.tlc_model(_sub(ctx, "mc"), "AnnexBWriter", "AnnexBWriter_MC", workers=1, tool_opts=JVM),
-            lambda: vlib.tlc_expect_violation(_sub(ctx, "asis"), "AnnexBWriter", "AnnexBWriter_asis", workers=1, tool_opts=JVM),
+    # generative runs (intended variant must satisfy Correct; each emits its input sequences as vectors):
+    #   MC      structure: all types x {small, fragmented} x call boundaries, depth 3, MTU 128
+    #   MC_frag size boundaries of the fragmentation / aggregation arithmetic (mtu-1, mtu, mtu+1, last fragment
+    #           of 1, 2, full bytes, 2..4 fragments), MTU 40 and 128, with and without a parameter-set opener
+    #   MC_len  two-byte length fields: units of 255/256/257/300/700 bytes aggregated at MTU 1200
+    gen = ["AnnexBWriter_MC", "AnnexBWriter_MC_frag", "AnnexBWriter_MC_len", "AnnexBWriter_MC_len3"]
+    if not quick:
+        gen += ["AnnexBWriter_MC_t", "AnnexBWriter_MC_t264", "AnnexBWriter_MC_frag3", "AnnexBWriter_MC_len_t"]
+    jobs = [lambda: vlib.tlc_expect_violation(_sub(ctx, "asis"), "AnnexBWriter", "AnnexBWriter_asis", workers=1, tool_opts=JVM),
             lambda: vlib.tlc_expect_violation(_sub(ctx, "pktfix"), "AnnexBWriter", "AnnexBWriter_pktfix", workers=1, tool_opts=JVM),
             lambda: vlib.go_build(ctx, "nalwriter_h264"),
             lambda: vlib.go_build(ctx, "nalwriter_h265")]
-    deep = [] if quick else ["AnnexBWriter_MC_t", "AnnexBWriter_MC_t264"]
-    jobs += [(lambda c=c: vlib.tlc_model(_sub(ctx, c), "AnnexBWriter", c, workers=1, timeout=500, tool_opts=JVM)) for c in deep]
+    jobs += [(lambda c=c: vlib.tlc_model(_sub(ctx, c), "AnnexBWriter", c, workers=1, timeout=500, tool_opts=JVM)) for c in gen]
     res = parallel(jobs)
-    mc, asis, pktfix, bin264, bin265 = res[:5]
-    models = [("AnnexBWriter/AnnexBWriter_MC", mc)] + [("AnnexBWriter/" + c, r) for c, r in zip(deep, res[5:])]
+    asis, pktfix, bin264, bin265 = res[:4]
+    models = [("AnnexBWriter/" + c, r) for c, r in zip(gen, res[4:])]
     for name, r in models:
         ctx.cov["states"] += r.distinct
         ctx.cov["transitions"] += r.generated
@@ -270,19 +268,18 @@ def run_c35(ctx):
     if asis.rc != 12:
         ctx.notes.append("model drift: the as-is writer model no longer yields a counterexample (rc=%s)" % asis.rc)
 
-    # vectors -> concrete cases (lengths and MTU chosen here, seeded)
+    # vectors -> cases: MTU and every unit length are the model's numbers
     rng = ctx.rng
     vecs = [v[0] for _, r in models for v in r.tag("VERIF_VEC")]
     if not vecs:
         raise vlib.NoVerdict("AnnexBWriter emitted no vectors")
+    ctx.cov["vectors_per_model"] = {name: len(r.tag("VERIF_VEC")) for name, r in models}
     cases = {"h264": [], "h265": []}
     meta = {}
     nid = 0
     for v in vecs:
-        mtu = 128 if nid % 2 == 0 else 1200
-        units = [{"ty": u["ty"], "len": _len_for(rng, v["codec"], u["ty"], u["big"], mtu), "eos": u["eos"]}
-                 for u in v["inp"]]
-        cases[v["codec"]].append({"id": nid, "mtu": mtu, "agg": v["agg"], "raw": False, "units": units})
+        units = [{"ty": u["ty"], "len": u["len"], "eos": u["eos"]} for u in v["inp"]]
+        cases[v["codec"]].append({"id": nid, "mtu": v["mtu"], "agg": v["agg"], "raw": False, "units": units})
         meta[nid] = v
         nid += 1
     nvec = nid
@@ -291,19 +288,25 @@ def run_c35(ctx):
     nrand = 1500 if quick else 60000
     for _ in range(nrand):
         codec = rng.choice(["h264", "h265"])
-        mtu = rng.choice([64, 100, 128, 300, 1200, 1400, rng.randrange(40, 1500)])
+        mtu = rng.choice([20, 40, 64, 100, 128, 300, 1200, 1200, 1400, rng.randrange(16, 1500)])
+        hdr, sl = (1, mtu - 2) if codec == "h264" else (2, mtu - 3)
         units = []
         for _ in range(rng.randrange(1, 13)):
             ty = rng.choice(RAND_TYPES[codec])
             k = rng.random()
-            if k < 0.55:
+            if k < 0.45:
                 ln = rng.randrange(5, 40)
-            elif k < 0.75:
+            elif k < 0.60:
                 ln = max(5, mtu + rng.randrange(-8, 9))
+            elif k < 0.72:      # last fragment carries 0, 1 or 2 bytes more than whole slices
+                ln = hdr + rng.randrange(1, 6) * sl + rng.randrange(0, 3)
+            elif k < 0.82:      # around the two-byte length fields of aggregation packets
+                ln = rng.choice([254, 255, 256, 257, 258, 300, 511, 512, 513, 700, 1023, 1024])
             elif k < 0.97:
                 ln = rng.randrange(mtu + 1, 4 * mtu + 2)
             else:
                 ln = rng.randrange(4000, 10241)
+            ln = max(5, ln)
             units.append({"ty": ty, "len": ln, "eos": rng.random() < 0.4})
         cases[codec].append({"id": nid, "mtu": mtu, "agg": rng.random() < 0.75, "raw": rng.random() < 0.5,
                              "units": units})
@@ -318,8 +321,8 @@ def run_c35(ctx):
 
     traces = parallel([lambda: drive(bin264, "h264"), lambda: drive(bin265, "h265")])
     ctx.log("drivers done")
-    ctx.viol = tlc_trace_parallel(ctx, "AnnexB_Trace", "AnnexB_Trace", traces, nproc=4 if quick else 10)
-    own_exercised(ctx, ["FromFirstKey", "OrderAndBytes"])
+    ctx.viol = tlc_trace_parallel(ctx, "AnnexB_Trace", "AnnexB_Trace", traces, nproc=6 if quick else 10)
+    own_exercised(ctx, ["FromFirstKey-KeyKept", "FromFirstKey-NothingBefore", "OrderAndBytes"])
 
     lines = [l for t in traces for l in vlib.read_ndjson(t) if l.get("ev") == "wr"]
     ctx.cov["evaluations"] = len(lines)
